@@ -441,8 +441,26 @@ fn stress(ctx: &Ctx, refs: &Arc<Reference>, nthreads: usize, per_thread: usize, 
                 TL_RNG.with(|c| c.set(rng.next()));
                 for i in 0..per_thread {
                     let k = sizes[rng.below(sizes.len() as u64) as usize];
-                    let e = request(k);
-                    if let Err(m) = check_transparent(&refs, k, &e) {
+                    // every 24th request is preceded by a call the library must refuse: with_encoding_plan
+                    // with a plan generated for another symbol count. Refused or not, it must leave no trace
+                    // in the shared cache (the snapshot checks see a foreign plan at once)
+                    if i % 24 == 7 {
+                        let other = sizes[rng.below(sizes.len() as u64) as usize];
+                        if other != k {
+                            if let Some(p) = refs.plans.get(&other) {
+                                let _ = guarded(|| SourceBlockEncoder::with_encoding_plan(0, &cfg1(), &data_for(k), p));
+                                REFUSED_PLAN_CALLS.fetch_add(1, Relaxed);
+                            }
+                        }
+                    }
+                    let e = match guarded(|| request(k)) {
+                        Ok(e) => e,
+                        Err(m) => {
+                            errs.lock().unwrap().push(format!("SourceBlockEncoder::new for {k} symbols panicked under concurrency: {}", short(&m, 120)));
+                            continue;
+                        }
+                    };
+                    if let Err(m) = guarded(|| check_transparent(&refs, k, &e)).unwrap_or_else(|m| Err(format!("encoder for {k} symbols panicked while producing packets: {}", short(&m, 120)))) {
                         errs.lock().unwrap().push(m);
                     }
                     if i % 16 == 0 {
@@ -478,6 +496,7 @@ fn stress(ctx: &Ctx, refs: &Arc<Reference>, nthreads: usize, per_thread: usize, 
 }
 
 static REFS: OnceLock<Arc<Reference>> = OnceLock::new();
+static REFUSED_PLAN_CALLS: AtomicU64 = AtomicU64::new(0);
 
 pub fn run(ctx: &Ctx) -> i32 {
     vc::set_hook(Some(hook));
@@ -592,6 +611,7 @@ pub fn run(ctx: &Ctx) -> i32 {
     ctx.cov("stress_requests_checked_for_transparency", J::i(tot.requests));
     ctx.cov("stress_snapshots_checked", J::i(tot.snapshots));
     ctx.cov("stress_max_cache_size_seen", J::i(tot.max_size));
+    ctx.cov("stress_with_encoding_plan_calls_with_a_plan_for_another_size_(must_be_refused,_must_not_reach_the_cache)", J::i(REFUSED_PLAN_CALLS.load(Relaxed)));
     ctx.cov("cache_capacity", J::i(cap));
     ctx.cov(
         "hook_counters_whole_run",
